@@ -14,9 +14,10 @@ RULE = ("host configurations generated from one PRNG and built in fresh anonymou
 
 CODES = {1: "error class differs from the model", 2: "chosen interface differs from the model",
          3: "source IP differs from the model", 4: "source MAC differs from the model",
-         5: "vpn flag differs from the model", 6: "gateway differs from the model"}
+         5: "vpn flag differs from the model", 6: "gateway differs from the model",
+         7: "ip.ParseIPNet accepts / refuses / returns something else than the model of it"}
 
-ERRCODE = {"": 0, "srciface": 1, "srcip": 2, "srcmac": 3}
+ERRCODE = {"": 0, "srciface": 1, "srcip": 2, "srcmac": 3, "badtarget": 4}
 ENTRY = ["getScanRange", "parseOptions", "arp command on the wire", "icmp command on the wire"]
 V4IN6 = bytes([0] * 10 + [255, 255])
 MAXINT32 = 2 ** 31 - 1
@@ -54,12 +55,23 @@ def cfg_term(cfg):
 
 
 def case_term(o, cfgname):
-    tgt = "None" if o["dst_nil"] else "(Some {| t_ip := %s; t_mask := %s |})" % (coq_ip(hx(o["dst_ip"])), coq_ip(hx(o["dst_mask"])))
+    refused = bool(o.get("dst_refused"))
+    tgt = "None" if o["dst_nil"] or refused else "(Some {| t_ip := %s; t_mask := %s |})" % (
+        coq_ip(hx(o["dst_ip"])), coq_ip(hx(o["dst_mask"])))
+    kind = o.get("txt_kind", "")
+    if o["dst_nil"]:
+        txt = "None"
+    elif kind == "cidr":
+        txt = "(Some (TxtCIDR %s %s))" % (coq_ip(hx(o["txt_ip"])), coq_ip(hx(o["txt_mask"])))
+    elif kind == "addr":
+        txt = "(Some (TxtAddr %s %s))" % (verif.coq_bool(o["txt_is4"]), coq_ip(hx(o["txt_ip"])))
+    else:
+        txt = "(Some TxtJunk)"
     ov = "{| ov_iface := %s%%string; ov_srcip := %s; ov_srcmac := %s |}" % (
         verif.coq_string(o["iface"]), coq_opt_ip(o["srcip_in"]), coq_opt_ip(o["srcmac_in"]))
-    return ("{| c_cfg := %s; c_entry := %d; c_target := %s; c_ov := %s; c_err := %d; c_ifindex := %d; c_ifname := %s%%string; "
-            "c_srcip := %s; c_srcmac := %s; c_vpn := %s; c_gwmac := %s |}") % (
-        cfgname, o["entry"], tgt, ov, ERRCODE.get(o["err"], 9), o["ifindex"], verif.coq_string(o["ifname"]),
+    return ("{| c_cfg := %s; c_entry := %d; c_txt := %s; c_target := %s; c_refused := %s; c_ov := %s; c_err := %d; c_ifindex := %d; "
+            "c_ifname := %s%%string; c_srcip := %s; c_srcmac := %s; c_vpn := %s; c_gwmac := %s |}") % (
+        cfgname, o["entry"], txt, tgt, verif.coq_bool(refused), ov, ERRCODE.get(o["err"], 9), o["ifindex"], verif.coq_string(o["ifname"]),
         coq_opt_ip(o["srcip_out"]), coq_opt_ip(o["srcmac_out"]), verif.coq_bool(o["vpn"]), coq_opt_ip(o["gwmac"]))
 
 
@@ -120,13 +132,18 @@ def net_contains(a, x):
     return int.from_bytes(aip, "big") & m == int.from_bytes(x, "big") & m
 
 
-def target_base(o):
-    tip, tm = hx(o["dst_ip"]), hx(o["dst_mask"])
-    if len(tip) == 16 and len(tm) == 4 and tip[:12] == V4IN6:
-        tip = tip[12:]
-    if len(tip) != len(tm):
-        return b""
-    return bytes(x & y for x, y in zip(tip, tm))
+def ipv4_target(text):
+    """The target as the property understands it: an IPv4 host or an IPv4 CIDR block -> base address bytes;
+       anything else (every IPv6 notation, IPv4-mapped forms included, junk) -> None. Python's own parser."""
+    import ipaddress
+    try:
+        if "/" in text:
+            n = ipaddress.ip_network(text, strict=False)
+            return n.network_address.packed if n.version == 4 else None
+        a = ipaddress.ip_address(text)
+        return a.packed if a.version == 4 else None
+    except ValueError:
+        return None
 
 
 def expected(cfg, o):
@@ -135,6 +152,11 @@ def expected(cfg, o):
     ifaces = cfg["ifaces"] or []
     search = ifaces
     forced = None
+    base = None
+    if not o["dst_nil"]:
+        base = ipv4_target(o["target"])
+        if base is None:
+            return ("err", "the target is not an IPv4 address or IPv4 CIDR block")
     if o["iface"]:
         forced = next((i for i in ifaces if i["name"] == o["iface"]), None)
         if forced is None:
@@ -142,7 +164,6 @@ def expected(cfg, o):
         search = [forced]
     chosen, addr = None, None
     if not o["dst_nil"]:
-        base = target_base(o)
         for i in search:
             hit = next((a for a in i["addrs"] or [] if a["ipnet"] and len(base) in (4, 16) and net_contains(a, base)), None)
             if hit is not None:
